@@ -20,9 +20,10 @@ func init() {
 			"(4) CRC on every success exit of readRecord; (5) no fabrication — every variable-length slice of parseEntryData is dominated by a bounds check against len(data); a new first fragment discards pending fragments; recoverFromCorruption constructs no entry. " +
 			"(6) second level: the errors ReplayWALFile itself returns while handling a damaged record are classified 'skip this file' by ReplayWALDir's predicates (substring or errors.Is against a sentinel the error wraps); no read after the first of a record can leave readRecord as a clean io.EOF. " +
 			"Added after blind round 5: ReadEntry answers an explicit io.EOF only behind err == io.EOF. " +
-			"Added after blind round 6: NewManager has a log before recovery (writes acknowledged after a recovery must be numbered above what was recovered).",
+			"Added after blind round 6: NewManager has a log before recovery (writes acknowledged after a recovery must be numbered above what was recovered). " +
+			"Added after blind round 7: after a damaged record the resynchronisation either skips at least one maximal record or resets the pending fragments (a torn entry's first fragment must not be glued to later ones).",
 		NotDecided: "the set of entries delivered for each truncation offset / corruption position (enumeration: a different family); that resynchronisation after skipping 32 KB finds a record boundary.",
-		Rules:      []func(*Ctx, *Reporter){ruleWalErrorClasses, ruleDestructiveOps, ruleReuseValidatesTail, ruleWalCRC, ruleNoFabrication, ruleLogExistsBeforeRecovery},
+		Rules:      []func(*Ctx, *Reporter){ruleWalErrorClasses, ruleDestructiveOps, ruleReuseValidatesTail, ruleWalCRC, ruleNoFabrication, ruleLogExistsBeforeRecovery, ruleSkipAfterDamageDropsFragments},
 	})
 }
 
